@@ -37,6 +37,8 @@ def _spec(draw, tier):
     leaf = draw(gens.field_leaf(components_actions(), enums=True))
     w = gens.shape_width(leaf["s"])
     n = draw(st.integers(5, 60 if tier == "quick" else 100))
+    if draw(st.integers(0, 19)) == 0:
+        n = draw(st.integers(300, 600))        # occasionally a long run
     cycles = draw(st.lists(_cycle(w), min_size=n, max_size=n))
     return {"leaf": leaf, "cycles": cycles,
             # the Field object already created this many other actions; the action class is a trivial user subclass
